@@ -22,40 +22,56 @@
    ([json_valid true]: EmitUnpopulated /\ an unset explicit-presence Value/NullValue field outside
    every oneof), for all option records, every schema table accepted by [json_schema_ok] (decidable;
    every schema the harness uses is checked with the extracted function) and every representable
-   canonical value ([json_valid], Json/JsonMsgValid.v).
+   canonical value ([json_valid2] = [json_valid] of Json/JsonMsgValid.v plus: a Value has exactly one kind and
+   a finite number).
    _partial, because:
-     [json_core]  the table contains no message type with a special JSON mapping other than Empty
-                  (the model covers them and is executed against the implementation for all of them;
-                  the proof does not yet);
-     [b64]        base64 enters through the hypothesis b64_dec (b64_enc bs) = Some bs (C22);
+     [json_core2] the message types of the table are ordinary or one of the structural well-known
+                  types -- the wrappers, Struct, ListValue, Value, Empty (Json/JsonWktValid.v); tables
+                  with Any, Timestamp, Duration or FieldMask are outside the proved part (their mappings
+                  are modelled and executed against the implementation on every run; not yet proved);
+     [b64]        base64 enters through the hypothesis b64_dec (b64_enc bs) = Some bs, which is proved
+                  for the executable codec (C20_json_roundtrip_std_except_F11_partial has no hypothesis);
      floats are strconv-relative (NF32/NF64 nodes), lexing is by composition with C21.
    C20_json_marshal_fails_only_when_partial: representable content never makes Marshal fail (core);
    that every failure is one of the enumerated classes is checked on the implementation and on the
    model by the harness (error classes are compared on every failing case). *)
 From Coq Require Import List NArith ZArith Bool.
 From PB Require Import Base.PBytes Msg.MsgSchema Msg.MsgValue Json.RtSchema.
-From PB Require Import Json.JsonMsgModel Json.JsonMsgValid Json.JsonWktLite Json.JsonMsgP Text.TextMsgExample.
+From PB Require Import Json.JsonMsgModel Json.JsonMsgValid Json.JsonWktValid Json.JsonWktLite Json.JsonMsgP Json.JsonWktP.
+From PB Require Import Text.TextMsgExample.
 Import ListNotations.
 Open Scope N_scope.
 
 Theorem C20_json_roundtrip_except_F11_partial :
   forall (cd : jcodec) (o : jopts) (S : schema) (nm : names) (lim fuel tid : nat) (v : value),
     (forall bs, b64_dec cd (b64_enc cd bs) = Some bs) ->
-    json_schema_ok S nm = true -> json_core S nm = true ->
-    json_valid true (o_emit_unpop o) S nm fuel tid v = true ->
+    json_schema_ok S nm = true -> json_core2 S nm = true ->
+    json_valid2 true (o_emit_unpop o) S nm fuel tid v = true ->
     exists j, to_json cd o S nm lim fuel tid v = JOk j /\ of_json cd S nm fuel tid j = JOk (strip_unknown v).
-Proof. exact json_roundtrip_except_F11_partial. Qed.
+Proof. exact json_roundtrip_wkt_except_F11_partial. Qed.
 Print Assumptions C20_json_roundtrip_except_F11_partial.
 
-(* the full statement ([json_valid false]: no exclusion) is refuted: verif.K{} with EmitUnpopulated *)
+(* the same for the executable codec: the base64 hypothesis is proved (Json/JsonB64P.v) *)
+Theorem C20_json_roundtrip_std_except_F11_partial :
+  forall (o : jopts) (S : schema) (nm : names) (lim fuel tid : nat) (v : value),
+    json_schema_ok S nm = true -> json_core2 S nm = true ->
+    json_valid2 true (o_emit_unpop o) S nm fuel tid v = true ->
+    exists j, to_json std_codec o S nm lim fuel tid v = JOk j /\ of_json std_codec S nm fuel tid j = JOk (strip_unknown v).
+Proof. exact json_roundtrip_std_except_F11_partial. Qed.
+Print Assumptions C20_json_roundtrip_std_except_F11_partial.
+
+(* the full statement ([json_valid2 false]: no exclusion) is refuted: verif.KW{} -- unset optional
+   Value and NullValue fields, as in textpb2.KnownTypes{} -- with EmitUnpopulated *)
 Theorem C20_json_roundtrip_refuted :
   exists (cd : jcodec) (o : jopts) (S : schema) (nm : names) (lim fuel tid : nat) (v : value) (j : jv),
-    json_schema_ok S nm = true /\ json_core S nm = true /\
-    json_valid false (o_emit_unpop o) S nm fuel tid v = true /\
+    (forall bs, b64_dec cd (b64_enc cd bs) = Some bs) /\
+    json_schema_ok S nm = true /\ json_core2 S nm = true /\
+    json_valid2 false (o_emit_unpop o) S nm fuel tid v = true /\
     to_json cd o S nm lim fuel tid v = JOk j /\ of_json cd S nm fuel tid j <> JOk (strip_unknown v).
 Proof.
-  exists std_codec, (mkJO false false false false true false), ex_schema_j, ex_names_j, 100%nat, 3%nat, 2%nat, ex_k_empty.
-  eexists. split; [vm_compute; reflexivity|]. split; [vm_compute; reflexivity|]. split; [vm_compute; reflexivity|].
+  exists std_codec, (mkJO false false false false true false), ex_schema_w, ex_names_w, 100%nat, 3%nat, 2%nat, ex_kw_empty.
+  eexists. split; [exact JsonB64P.std_codec_b64|].
+  split; [vm_compute; reflexivity|]. split; [vm_compute; reflexivity|]. split; [vm_compute; reflexivity|].
   split; [vm_compute; reflexivity|]. vm_compute. discriminate.
 Qed.
 Print Assumptions C20_json_roundtrip_refuted.
@@ -63,10 +79,10 @@ Print Assumptions C20_json_roundtrip_refuted.
 Theorem C20_json_marshal_fails_only_when_partial :
   forall (cd : jcodec) (o : jopts) (S : schema) (nm : names) (lim fuel tid : nat) (v : value),
     (forall bs, b64_dec cd (b64_enc cd bs) = Some bs) ->
-    json_schema_ok S nm = true -> json_core S nm = true ->
-    json_valid true (o_emit_unpop o) S nm fuel tid v = true ->
+    json_schema_ok S nm = true -> json_core2 S nm = true ->
+    json_valid2 true (o_emit_unpop o) S nm fuel tid v = true ->
     exists j, to_json cd o S nm lim fuel tid v = JOk j.
-Proof. exact json_marshal_total_partial. Qed.
+Proof. exact json_marshal_total_wkt_partial. Qed.
 Print Assumptions C20_json_marshal_fails_only_when_partial.
 
 Theorem C20_rendering_options_irrelevant :
@@ -75,25 +91,32 @@ Theorem C20_rendering_options_irrelevant :
 Proof. exact json_rendering_options_irrelevant. Qed.
 Print Assumptions C20_rendering_options_irrelevant.
 
-(* non-vacuity: the example tables pass the checks; a message with scalars of many kinds, NaN /
-   infinity / -0 in a list, a map with an int64 boundary value, a nested message with a bytes oneof
-   member and unknown fields, an Empty, an enum, a oneof member, a uint64 list, an extension and
-   unknown fields is representable, and its round trip computes for several option records *)
-Example C20_example_schema_ok : json_schema_ok ex_schema_j ex_names_j = true /\ json_core ex_schema_j ex_names_j = true.
+(* non-vacuity: the example tables pass the checks; messages with scalars of many kinds, NaN /
+   infinity / -0 in a list, a map with an int64 boundary value, nested messages with unknown fields,
+   an Empty, enums, oneof members, an extension, a Value of every kind, a Struct with nested lists, a
+   ListValue, an Int64Value wrapper and a repeated Value are representable, and their round trips
+   compute for several option records *)
+Example C20_example_schema_ok :
+  json_schema_ok ex_schema_w ex_names_w = true /\ json_core2 ex_schema_w ex_names_w = true.
 Proof. vm_compute. split; reflexivity. Qed.
-Example C20_example_valid : json_valid true true ex_schema_j ex_names_j 5 1 ex_tj = true.
-Proof. vm_compute. reflexivity. Qed.
+Example C20_example_valid :
+  json_valid2 true true ex_schema_w ex_names_w 6 1 ex_tj = true /\ json_valid2 true true ex_schema_w ex_names_w 8 2 ex_kw = true.
+Proof. vm_compute. split; reflexivity. Qed.
 Example C20_example_roundtrip_all_on :
-  exists j, to_json std_codec (mkJO true true true true true true) ex_schema_j ex_names_j 100 5 1 ex_tj = JOk j /\
-            of_json std_codec ex_schema_j ex_names_j 5 1 j = JOk (strip_unknown ex_tj).
+  exists j, to_json std_codec (mkJO true true true true true true) ex_schema_w ex_names_w 100 6 1 ex_tj = JOk j /\
+            of_json std_codec ex_schema_w ex_names_w 6 1 j = JOk (strip_unknown ex_tj).
 Proof. eexists. split; [vm_compute; reflexivity|]. vm_compute. reflexivity. Qed.
 Example C20_example_roundtrip_all_off :
-  exists j, to_json std_codec (mkJO false false false false false false) ex_schema_j ex_names_j 100 5 1 ex_tj = JOk j /\
-            of_json std_codec ex_schema_j ex_names_j 5 1 j = JOk (strip_unknown ex_tj).
+  exists j, to_json std_codec (mkJO false false false false false false) ex_schema_w ex_names_w 100 6 1 ex_tj = JOk j /\
+            of_json std_codec ex_schema_w ex_names_w 6 1 j = JOk (strip_unknown ex_tj).
+Proof. eexists. split; [vm_compute; reflexivity|]. vm_compute. reflexivity. Qed.
+Example C20_example_roundtrip_wkt :
+  exists j, to_json std_codec (mkJO false false true false true true) ex_schema_w ex_names_w 100 8 2 ex_kw = JOk j /\
+            of_json std_codec ex_schema_w ex_names_w 8 2 j = JOk (strip_unknown ex_kw).
 Proof. eexists. split; [vm_compute; reflexivity|]. vm_compute. reflexivity. Qed.
 (* the F11 witness is excluded only by the F11 condition, and only under EmitUnpopulated *)
 Example C20_example_f11_excluded :
-  json_valid true true ex_schema_j ex_names_j 3 2 ex_k_empty = false /\
-  json_valid false true ex_schema_j ex_names_j 3 2 ex_k_empty = true /\
-  json_valid true false ex_schema_j ex_names_j 3 2 ex_k_empty = true.
+  json_valid2 true true ex_schema_w ex_names_w 3 2 ex_kw_empty = false /\
+  json_valid2 false true ex_schema_w ex_names_w 3 2 ex_kw_empty = true /\
+  json_valid2 true false ex_schema_w ex_names_w 3 2 ex_kw_empty = true.
 Proof. vm_compute. repeat split; reflexivity. Qed.
